@@ -453,10 +453,16 @@ func (e *env) negotiation(rng *rand.Rand) {
 	e.have[repo][idx.D] = idx.Raw
 	e.probe[idx.D] = true
 	for _, acc := range []string{vh.MTImage, vh.MTDockerImage, vh.MTImage + ", " + vh.MTDockerImage, vh.MTIndex, vh.AcceptAll, "application/json, " + vh.MTImage + ";q=0.5", vh.MTDockerList} {
-		for _, method := range []string{"GET", "HEAD"} {
-			rq := vh.Req{Method: method, URL: "/v2/" + repo + "/manifests/negot", H: map[string]string{"Accept": acc}}
+		// by tag, and by the digest of the index: there the digest in the request names the content - whatever the
+		// Accept list lacks, nothing but those bytes may come back with 200
+		for _, mr := range [][2]string{{"GET", "negot"}, {"HEAD", "negot"}, {"GET", idx.D}, {"HEAD", idx.D}} {
+			method := mr[0]
+			rq := vh.Req{Method: method, URL: "/v2/" + repo + "/manifests/" + mr[1], H: map[string]string{"Accept": acc}}
 			rs := e.do(rq)
 			e.r.Count("negotiated_reads", 1)
+			if mr[1] != "negot" {
+				e.r.Count("negotiated_reads_by_digest", 1)
+			}
 			e.r.Distinct("cells", "negotiation/"+method+"/"+fmt.Sprint(rs.Status))
 			if rs.Status >= 500 {
 				e.viol("read-5xx", fmt.Sprintf("%s %s (Accept %s) answered %d", method, rq.URL, acc, rs.Status))
